@@ -272,7 +272,7 @@ _cache = {}
 def analyse(isa, arch, lines, flag_deps, first_line=1):
     if arch not in _cache:
         mm = MachineModel(arch=arch)
-        if MODE in ("C06", "C03"):
+        if MODE in ("C06", "C03", "C14"):
             # model variant: most shipped models have forwarding latency 0 / default write-back latency, which would hide
             # wrong edge weights; the harness analyses with its in-memory copy set to distinctive values
             mm._data["store_to_load_forward_latency"] = 3.0
